@@ -61,6 +61,7 @@ __all__ = [
     "is_dataclass_dict_mixin_subclass",
     "collect_type_params",
     "resolve_type_params",
+    "strip_type_wrappers",
     "substitute_type_params",
     "get_generic_name",
     "get_name_error_name",
@@ -111,6 +112,22 @@ def get_underlying_class(typ: Type) -> Type:
             typ = typ.__value__  # type: ignore[attr-defined]
         elif get_type_origin(typ) is not typ:
             typ = get_type_origin(typ)
+        else:
+            return typ
+
+
+def strip_type_wrappers(typ: Type) -> Type:
+    # look through Annotated, Final, NewType and PEP 695 aliases, which
+    # don't change what values the type admits
+    while True:
+        if is_annotated(typ):
+            typ = get_type_origin(typ)
+        elif is_final(typ):
+            typ = get_args(typ)[0]
+        elif is_new_type(typ):
+            typ = typ.__supertype__
+        elif is_type_alias_type(typ):
+            typ = typ.__value__  # type: ignore[attr-defined]
         else:
             return typ
 
